@@ -58,9 +58,10 @@ type Event struct {
 type Case struct {
 	Progs      []string `json:"progs"`
 	Goroutines int      `json:"goroutines"`
-	Reps       int      `json:"reps"`     // every program is parsed about Reps times in total (erroneous ones less, see invalidCap)
-	Provider   string   `json:"provider"` // none | shared | fresh
-	Pretty     bool     `json:"pretty"`   // also pretty print every tree concurrently
+	Reps       int      `json:"reps"`            // every program is parsed about Reps times in total (erroneous ones less, see invalidCap)
+	Provider   string   `json:"provider"`        // none | shared | fresh
+	Pretty     bool     `json:"pretty"`          // also pretty print every tree concurrently
+	Evals      []string `json:"evals,omitempty"` // terminating programs which the parsing goroutines also validate and evaluate (provider attached only)
 
 	// evaluation workload running at the same time (Main == "" : none)
 	Main    string            `json:"main,omitempty"`  // sink declarations
@@ -70,10 +71,29 @@ type Case struct {
 	Events  []Event           `json:"events,omitempty"`
 }
 
-// Programs whose sequential parse fails may leave their lexer goroutine
-// blocked for ever (known C07 behaviour); they are parsed at most this often
-// per case so that 10^5 cases do not accumulate goroutines.
-const invalidCap = 8 // in total, spread over the first goroutines
+// Programs whose parse fails may leave their lexer goroutine blocked for ever
+// (C07 behaviour of older trees). TestMain probes for that; if it happens such
+// programs are parsed at most invalidCap times per case (in total, spread over
+// the first goroutines) so that 10^5 cases do not accumulate goroutines. This
+// is resource protection only - no verdict depends on it.
+var invalidCap = 1 << 30
+
+func probeLexerLeak() {
+	before := runtime.NumGoroutine()
+	text := "a := 1\n)\n" + strings.Repeat("b := [1, 2, 3, 4]\n", 20)
+	for i := 0; i < 30; i++ {
+		func() {
+			defer func() { recover() }()
+			parser.Parse("c13probe", text)
+		}()
+	}
+	for i := 0; i < 100 && runtime.NumGoroutine() > before+3; i++ {
+		time.Sleep(2 * time.Millisecond)
+	}
+	if runtime.NumGoroutine() > before+3 {
+		invalidCap = 8
+	}
+}
 
 var (
 	racePkgs = []string{"github.com/krotik/ecal/parser", "github.com/krotik/ecal/interpreter"}
@@ -86,6 +106,7 @@ var (
 	raceKept     int64
 	lastCase     *Case
 	lastCaseLock sync.Mutex
+	caseFailed   atomic.Bool // a case of TestProp has already been reported
 )
 
 func TestMain(m *testing.M) {
@@ -106,6 +127,7 @@ func TestMain(m *testing.M) {
 		}
 	}
 	loadCorpus()
+	probeLexerLeak()
 	hx.Main(m, "C13", rule)
 }
 
@@ -238,8 +260,33 @@ func parseOnce(text string, rp *interpreter.ECALRuntimeProvider, pretty bool, id
 			sb.WriteString("PRETTY:\n")
 			sb.WriteString(prettyGuarded(ast))
 		}
+		if rp != nil && err == nil && ast.Runtime != nil {
+			sb.WriteString("\nVALIDATE: ")
+			sb.WriteString(fmt.Sprint(ast.Runtime.Validate()))
+		}
 	}
 	return sb.String()
+}
+
+// evalOnce parses, validates and evaluates a (terminating) program in a fresh scope.
+func evalOnce(text string, rp *interpreter.ECALRuntimeProvider, tid uint64) (out string) {
+	defer func() {
+		if r := recover(); r != nil {
+			out = "PANIC: " + fmt.Sprint(r)
+		}
+	}()
+	ast, err := parser.ParseWithRuntime("c13eval", text, rp)
+	if err != nil {
+		return "PARSE ERROR: " + err.Error()
+	}
+	if err = ast.Runtime.Validate(); err != nil {
+		return "VALIDATE ERROR: " + err.Error()
+	}
+	res, err := ast.Runtime.Eval(scope.NewScope(scope.GlobalScope), make(map[string]interface{}), tid)
+	if err != nil {
+		return "EVAL ERROR: " + err.Error()
+	}
+	return "RESULT: " + fmt.Sprint(res)
 }
 
 // ---------------------------------------------------------------------------
@@ -549,7 +596,9 @@ func runCase(c Case) *hx.Failure {
 		quota[i] = 1 << 30
 		if strings.HasPrefix(exp[i], "ERROR") || strings.HasPrefix(exp[i], "PANIC") {
 			nInvalid++
-			quota[i] = max(1, invalidCap/G) // only on the first invalidCap goroutines, see below
+			if invalidCap < 1<<30 {
+				quota[i] = max(1, invalidCap/G) // and only on the first invalidCap goroutines, see below
+			}
 			invalid[i] = true
 		} else if mapNodeRe.MatchString(exp[i]) {
 			isMap[i] = true
@@ -557,6 +606,18 @@ func runCase(c Case) *hx.Failure {
 		}
 		if ifFor[i] = hasIfFor(text); ifFor[i] {
 			nIfFor++
+		}
+	}
+	expEval := make([]string, len(c.Evals))
+	stableEval := make([]bool, len(c.Evals))
+	if seqProvider != nil {
+		tid := seqProvider.NewThreadID()
+		for i, text := range c.Evals {
+			expEval[i] = evalOnce(text, seqProvider, tid)
+			stableEval[i] = evalOnce(text, seqProvider, tid) == expEval[i]
+			if !stableEval[i] {
+				hx.E.Exclude("unspecified.sequential-eval-varies")
+			}
 		}
 	}
 	if provider == "fresh" {
@@ -595,6 +656,9 @@ func runCase(c Case) *hx.Failure {
 	if c.Pretty {
 		classes = append(classes, "pretty")
 	}
+	if len(c.Evals) > 0 && provider != "none" {
+		classes = append(classes, "host-evals")
+	}
 	if nIfFor > 0 {
 		classes = append(classes, "set.has-iffor")
 	}
@@ -618,14 +682,16 @@ func runCase(c Case) *hx.Failure {
 
 	// --- concurrent phase -----------------------------------------------------
 	var (
-		wg       sync.WaitGroup
-		stop     atomic.Bool
-		mmLock   sync.Mutex
-		first    *mismatch
-		idLists  = make([][]uint64, G)
-		nParses  atomic.Int64
-		start    = make(chan struct{})
-		gotLines []string
+		wg        sync.WaitGroup
+		stop      atomic.Bool
+		mmLock    sync.Mutex
+		first     *mismatch
+		firstEval *mismatch
+		nEvals    atomic.Int64
+		idLists   = make([][]uint64, G)
+		nParses   atomic.Int64
+		start     = make(chan struct{})
+		gotLines  []string
 	)
 	iters := 0
 	if P > 0 {
@@ -647,7 +713,23 @@ func runCase(c Case) *hx.Failure {
 			}
 			done := make([]int, P)
 			n := 0
+			var tid uint64
+			if rp != nil {
+				tid = rp.NewThreadID()
+			}
 			for i := 0; i < iters && !stop.Load(); i++ {
+				if rp != nil && len(c.Evals) > 0 && i%4 == 3 {
+					e := (g + i/4) % len(c.Evals)
+					nEvals.Add(1)
+					if out := evalOnce(c.Evals[e], rp, tid); out != expEval[e] && stableEval[e] {
+						mmLock.Lock()
+						if firstEval == nil {
+							firstEval = &mismatch{e, g, i, out}
+						}
+						mmLock.Unlock()
+						stop.Store(true)
+					}
+				}
 				p := (g + i) % P
 				if done[p] >= quota[p] || invalid[p] && g >= invalidCap {
 					continue
@@ -677,6 +759,7 @@ func runCase(c Case) *hx.Failure {
 	close(start)
 	wg.Wait()
 	hx.E.Class("parses.concurrent", nParses.Load())
+	hx.E.Class("host-evals.concurrent", nEvals.Load())
 	if evalMode {
 		hx.E.Class("events.concurrent", int64(len(c.Events)))
 	}
@@ -690,6 +773,10 @@ func runCase(c Case) *hx.Failure {
 	if first != nil {
 		return hx.Failf("wrong-result:parse", "program %d parsed on goroutine %d (iteration %d, %d goroutines, provider %s) differs from its sequential result: %s\nprogram:\n%s\nsequential:\n%s\nconcurrent:\n%s",
 			first.prog, first.goroutine, first.iter, G, provider, firstDiff(exp[first.prog], first.got), short(c.Progs[first.prog], 1500), short(exp[first.prog], 3000), short(first.got, 3000))
+	}
+	if firstEval != nil {
+		return hx.Failf("wrong-result:host-eval", "program evaluated on goroutine %d (iteration %d, %d goroutines, provider %s) differs from its sequential result:\nprogram:\n%s\nsequential: %s\nconcurrent: %s",
+			firstEval.goroutine, firstEval.iter, G, provider, short(c.Evals[firstEval.prog], 1500), short(expEval[firstEval.prog], 1500), short(firstEval.got, 1500))
 	}
 	if evalMode {
 		if a, b := strings.Join(expLines, "\n"), strings.Join(gotLines, "\n"); a != b {
@@ -828,9 +915,9 @@ func drawCase(rt *rapid.T) Case {
 	var c Case
 	thorough := hx.Thorough()
 
-	n := g.n("nprogs", 2, 16)
-	if g.n("small", 0, 2) > 0 {
-		n = g.n("nprogs.small", 2, 5)
+	n := g.n("nprogs.small", 2, 6)
+	if g.n("large", 0, 5) == 3 {
+		n = g.n("nprogs", 7, 16)
 	}
 	forces := make([]string, n)
 	if g.n("forced", 0, 9) < 9 {
@@ -869,7 +956,7 @@ func drawCase(rt *rapid.T) Case {
 	case thorough:
 		maxReps, budget = 500, 6000
 	case raceEnabled:
-		maxReps, budget = 80, 800
+		maxReps, budget = 60, 600
 	}
 	c.Reps = g.n("reps", 50, maxReps)
 	if n*c.Reps > budget {
@@ -878,8 +965,18 @@ func drawCase(rt *rapid.T) Case {
 	c.Provider = g.pick("provider", []string{"none", "shared", "shared", "fresh"})
 	c.Pretty = g.n("pretty", 0, 3) == 0
 
+	if c.Provider != "none" && g.n("hosteval", 0, 2) != 1 {
+		c.Evals, c.Files = drawHostEvals(rt)
+	}
 	if g.n("eval", 0, 3) == 0 {
-		c.Main, c.Files, c.Events, _, _ = drawEval(rt)
+		var files map[string]string
+		c.Main, files, c.Events, _, _ = drawEval(rt)
+		if c.Files == nil {
+			c.Files = map[string]string{}
+		}
+		for k, v := range files {
+			c.Files[k] = v
+		}
 		c.Workers = g.n("workers", 2, 8)
 		c.Posters = g.n("posters", 1, 4)
 		c.Provider = "shared"
@@ -887,4 +984,12 @@ func drawCase(rt *rapid.T) Case {
 	return c
 }
 
-func TestProp(t *testing.T) { hx.Check(t, drawCase, runCase) }
+func TestProp(t *testing.T) {
+	hx.Check(t, drawCase, func(c Case) *hx.Failure {
+		f := runCase(c)
+		if f != nil {
+			caseFailed.Store(true)
+		}
+		return f
+	})
+}
